@@ -363,7 +363,7 @@ func Find(logger logger.Logger, start, stop string) (string, error) {
 		}
 
 		for _, e := range entries {
-			if !e.IsDir() && e.Name() == NAME {
+			if e.Name() == NAME && isRegularFile(filepath.Join(start, e.Name())) {
 				// We've found it
 				abs, err := filepath.Abs(filepath.Join(start, e.Name()))
 				if err != nil {
@@ -381,6 +381,13 @@ func Find(logger logger.Logger, start, stop string) (string, error) {
 		}
 		start = parent
 	}
+}
+
+// isRegularFile reports whether path is (or, through symbolic links, leads to) a regular file:
+// a directory, a named pipe, a link to a directory or a dangling link named 'spokfile' is not a spokfile.
+func isRegularFile(path string) bool {
+	info, err := os.Stat(path)
+	return err == nil && info.Mode().IsRegular()
 }
 
 // New converts a parsed spok AST into a concrete File object,
